@@ -147,3 +147,16 @@ func RetVal(ret *ssa.Return, i int) ssa.Value {
 	}
 	return v
 }
+
+// inModule reports whether fn (or, for an instantiated generic, its origin)
+// belongs to the analysed module.
+func inModule(fn *ssa.Function) bool {
+	if fn == nil {
+		return false
+	}
+	if fn.Pkg == nil && fn.Origin() != nil {
+		fn = fn.Origin()
+	}
+	return fn.Pkg != nil && fn.Pkg.Pkg != nil &&
+		(fn.Pkg.Pkg.Path() == modPath || len(fn.Pkg.Pkg.Path()) > len(modPath) && fn.Pkg.Pkg.Path()[:len(modPath)+1] == modPath+"/")
+}
